@@ -131,31 +131,44 @@ def _init(model):
 def _pathloss_strategy(tier):
     max_steps = 9 if tier == "quick" else 12
     max_d = 6 if tier == "quick" else 12
+    # strategies are built once (re-creating them inside the composite
+    # dominates the generation cost)
+    models = ["general", "freespace", "3gpp1", "metis", "hata"]
+    setters = {m: _setter(m) for m in models}
+    inits = {m: _init(m) for m in models}
+    dists = st.lists(_dist(), min_size=1, max_size=max_d)
+    forms_any = st.sampled_from(["array", "array", "array2d"])
+    forms_gen = st.sampled_from(["array", "array2d", "list"])
+    walls_int = st.integers(0, 6)
+    walls_few = st.sampled_from([0, 0, 1, 2])
+    model_st = st.sampled_from(["general", "freespace", "freespace", "3gpp1",
+                                "metis", "metis", "hata", "hata"])
+    nsteps_st = st.integers(1, max_steps)
+    bools = st.booleans()
 
     @st.composite
     def build(draw):
-        model = draw(st.sampled_from(["general", "freespace", "freespace",
-                                      "3gpp1", "metis", "metis", "hata",
-                                      "hata"]))
-        nsteps = draw(st.integers(1, max_steps))
+        model = draw(model_st)
+        nsteps = draw(nsteps_st)
         steps = []
         for i in range(nsteps):
             # the first step may query the freshly built object
-            has_set = draw(st.booleans()) if i == 0 else True
-            s = dict(set=draw(_setter(model)) if has_set else None,
-                     d=draw(st.lists(_dist(), min_size=1, max_size=max_d)),
-                     form="array", int_scalars=draw(st.booleans()))
-            if model in ("general", "freespace", "3gpp1"):
-                s["form"] = draw(st.sampled_from(["array", "array", "list"]))
+            has_set = draw(bools) if i == 0 else True
+            s = dict(set=draw(setters[model]) if has_set else None,
+                     d=draw(dists),
+                     form=draw(forms_gen if model in (
+                         "general", "freespace", "3gpp1") else forms_any),
+                     int_scalars=draw(bools))
             if model == "metis":
                 n = len(s["d"])
-                s["walls"] = draw(st.one_of(
-                    st.integers(0, 6),
-                    st.lists(st.integers(0, 6), min_size=n, max_size=n),
-                    st.lists(st.sampled_from([0, 0, 1, 2]), min_size=n,
-                             max_size=n)))
+                kind = draw(walls_few)      # 0: one int, 1: any, 2: few walls
+                if kind == 0:
+                    s["walls"] = draw(walls_int)
+                else:
+                    el = walls_int if kind == 1 else walls_few
+                    s["walls"] = [draw(el) for _ in range(n)]
             steps.append(s)
-        return dict(part="pathloss", model=model, init=draw(_init(model)),
+        return dict(part="pathloss", model=model, init=draw(inits[model]),
                     steps=steps)
     return build()
 
@@ -379,9 +392,15 @@ def _query(ctx, P, obj, p, policy, model, step, nset):
     if "tie" in cls:
         return
     t = dict(tags, form=step["form"])
-    D = list(ds) if step["form"] == "list" else np.array(ds, dtype=float)
+    # distance matrices (2-D) are what apps/ pass; 'array2d' needs an even n
+    shape = (2, n // 2) if (step["form"] == "array2d" and n % 2 == 0) \
+        else (n,)
+    ctx.label("form:%s" % ("list" if step["form"] == "list"
+                           else "%dd-array" % len(shape)))
+    D = list(ds) if step["form"] == "list" else \
+        np.array(ds, dtype=float).reshape(shape)
     if model == "metis":
-        kw = dict(num_walls=(np.array(wl, dtype=int)
+        kw = dict(num_walls=(np.array(wl, dtype=int).reshape(shape)
                              if isinstance(walls, list) else int(walls)))
         ctx.label("metis:walls_array" if isinstance(walls, list)
                   else "metis:walls_int")
@@ -396,15 +415,16 @@ def _query(ctx, P, obj, p, policy, model, step, nset):
                       "calc_path_loss(%r)" % ds, t)
         return
     R = obj.calc_path_loss_dB(D, **kw)
-    if not isinstance(R, np.ndarray) or R.shape != (n,):
-        raise Violation("result_shape", "calc_path_loss_dB of %d distances "
-                        "returned %s shape %r" %
-                        (n, type(R).__name__, np.shape(R)), t)
-    R = R.astype(float)
+    if not isinstance(R, np.ndarray) or R.shape != shape:
+        raise Violation("result_shape", "calc_path_loss_dB of distances of "
+                        "shape %r returned %s shape %r" %
+                        (shape, type(R).__name__, np.shape(R)), t)
+    R = R.astype(float).reshape(-1)
     Lin = np.asarray(obj.calc_path_loss(D, **kw), dtype=float)
-    if Lin.shape != (n,):
-        raise Violation("result_shape", "calc_path_loss of %d distances "
-                        "returned shape %r" % (n, Lin.shape), t)
+    if Lin.shape != shape:
+        raise Violation("result_shape", "calc_path_loss of distances of "
+                        "shape %r returned shape %r" % (shape, Lin.shape), t)
+    Lin = Lin.reshape(-1)
     for i in range(n):
         if cls[i] == "neg":
             if R[i] != 0.0 or Lin[i] != 1.0:
@@ -440,12 +460,15 @@ def _query(ctx, P, obj, p, policy, model, step, nset):
                                                      R[j]), t)
     # inverse on arrays
     if model in OFFERS_INVERSE:
-        back = np.asarray(obj.which_distance_dB(R.copy()), dtype=float)
-        back2 = np.asarray(obj.which_distance(Lin.copy()), dtype=float)
-        if back.shape != (n,) or back2.shape != (n,):
-            raise Violation("result_shape", "which_distance(_dB) of %d "
-                            "losses returned shapes %r / %r" %
-                            (n, back.shape, back2.shape), t)
+        back = np.asarray(obj.which_distance_dB(R.reshape(shape).copy()),
+                          dtype=float)
+        back2 = np.asarray(obj.which_distance(Lin.reshape(shape).copy()),
+                           dtype=float)
+        if back.shape != shape or back2.shape != shape:
+            raise Violation("result_shape", "which_distance(_dB) of losses "
+                            "of shape %r returned shapes %r / %r" %
+                            (shape, back.shape, back2.shape), t)
+        back, back2 = back.reshape(-1), back2.reshape(-1)
         for i in range(n):
             if cls[i] == "pos" and PLm[i] > 0:
                 ctx.close("inverse_dB", _rel(back[i], ds[i]), 1e-9,
@@ -457,7 +480,8 @@ def _query(ctx, P, obj, p, policy, model, step, nset):
     # a freshly constructed object with the same parameter values agrees
     twin = _build(P, model, p)
     twin.handle_small_distances_bool = True
-    R2 = np.asarray(twin.calc_path_loss_dB(D, **kw), dtype=float)
+    R2 = np.asarray(twin.calc_path_loss_dB(D, **kw),
+                    dtype=float).reshape(-1)
     for i in range(n):
         ctx.close("same_as_fresh_object", abs(R[i] - R2[i]),
                   1e-12 * max(1.0, abs(R2[i])),
